@@ -1174,11 +1174,11 @@ def free_episode(setup, reqs):
     return {"setup": setup, "reqs": out, "sched": []}
 
 
-def conc_run(work, vh, episodes, name, stores, free, seed):
+def conc_run(work, vh, episodes, name, stores, free, seed, burst=0):
     import re
     ef, tf = work.path("episodes-%s.ndjson" % name), work.path("conc-trace-%s.ndjson" % name)
     vlib.write_programs(ef, episodes)
-    rc, out, dt = vlib.run([vh, "conc", "-episodes", ef, "-o", tf, "-stores", stores, "-seed", str(seed), "-free", str(free)], timeout=6000, check=False,
+    rc, out, dt = vlib.run([vh, "conc", "-episodes", ef, "-o", tf, "-stores", stores, "-seed", str(seed), "-free", str(free), "-burst", str(burst)], timeout=6000, check=False,
                            env=dict(os.environ, TMPDIR=work.sub("roots-" + name)))
     m = re.search(r"(\d+) episodes, (\d+) runs, (\d+) drift, (\d+) hung", out)
     if rc != 0 or not m:
@@ -1237,15 +1237,15 @@ def c11(prop, tier, seed, work):
         episodes += [dict(e, adv=True) for e in eps] if lock == "FALSE" else eps
     nmodel = len(episodes)
     episodes += [free_episode(s, r) for s, r in FREE_EPISODES] * (2 if quick else 12)
-    x = conc_run(work, vh, episodes, "main", "mem,dir" if quick else "mem,dir,memdir", 1 if quick else 3, seed)
+    x = conc_run(work, vh, episodes, "main", "mem,dir" if quick else "mem,dir,memdir", 1 if quick else 3, seed, burst=4 if quick else 9)
     log("%d episodes (%d with a TLC schedule), %d runs, %d rejected, %d drift, %d hung (exec %.1fs, tlc %.1fs)" % (len(episodes), nmodel, x["runs"], len(x["rejected"]), len(x["drift"]), x["hung"], x["exec"], x["tlc"]))
     violations = []
     for f in x["v"]["fails"]:
         raise Inconclusive("the sequential setup of an episode was not accepted: %s" % json.dumps(f)[:600])
     seen = set()
     for e in x["rejected"]:
-        ep = dict(e["episode"], order=e["played"])
-        key = json.dumps([e["store"], e["episode"]["setup"], e["episode"]["reqs"]], sort_keys=True)
+        ep = dict(e["episode"], burst=25, cold=e["cold"]) if e["burst"] else dict(e["episode"], order=e["played"])
+        key = json.dumps([e["store"], e["burst"], e["episode"]["setup"], e["episode"]["reqs"]], sort_keys=True)
         if key in seen:
             continue
         seen.add(key)
@@ -1260,7 +1260,8 @@ def c11(prop, tier, seed, work):
            "episodes": len(episodes), "episodes_with_model_schedule": nmodel, "runs": x["runs"], "drift": len(x["drift"]), "hung": x["hung"],
            "linearization_search_states": x["states"], "model_checking": notes,
            "rule": "episode = setup (s0..s3), 2 or 3 requests from the menu of spec/MCHandlers.tla and a complete schedule of their store calls chosen by tlc -simulate; the harness runs each request "
-                   "in a goroutine and lets exactly one store call through at a time in that order (blocking tap before every store call), then once more per store with a seeded random order; "
+                   "in a goroutine and lets exactly one store call through at a time in that order (blocking tap before every store call), then once more per store with a seeded random order, "
+                   "then without gates (all requests start at once and run in parallel: races inside store calls; on the directory store two of three such bursts meet a freshly restarted server); "
                    "blob upload/delete mixes run with random orders only; TLC (spec/TraceLin.tla) searches a sequential order of Registry actions consistent with the real time order that yields "
                    "every response and the final observed state", "samples": [{"setup": e["setup"], "reqs": e["reqs"], "sched": e["sched"][:12]} for e in episodes[:2]],
            "exhaustive": False, "failures": [{"id": e["id"], "store": e["store"], "reqs": e["episode"]["reqs"]} for _, e in violations][:10]}
